@@ -6,7 +6,7 @@
    floats, so NaN, inf and -0.0 are just values); add is an arbitrary binary operation (np.add on the
    data dtype) — the stable sort keeps duplicates in their given order, so no algebraic law is needed. *)
 From Coq Require Import ZArith List Bool.
-From Verif Require Import Py Shape COO GCXS COOP S_convert S_scipy Convert ScipyConv ConvertL ConvertM ConvertG ConvertP ConvertU ScipyP.
+From Verif Require Import Py Shape COO GCXS COOP S_convert S_scipyconv Convert ScipyConv ConvertL ConvertM ConvertG ConvertP ConvertU ScipyP.
 Import ListNotations.
 Open Scope Z_scope.
 
@@ -246,7 +246,7 @@ Print Assumptions change_axes_any.
 (* GCXS / CSR / CSC from a csr/csc matrix, canonical or not (unsorted indices, repeated positions): the
    result is well-formed and every element is the sum of the values stored for its position — the
    re-canonicalisation condition, the axis choice and the constructor flags are those extracted from
-   the source (Gen/S_scipy.v) *)
+   the source (Gen/S_scipyconv.v) *)
 Theorem from_scipy_correct :
   forall (V : Type) (veqb : V -> V -> bool) (add : V -> V -> V) (zero : V) (m : scs V),
     sc_structb m = true ->
@@ -255,6 +255,14 @@ Theorem from_scipy_correct :
     /\ forall ix, in_range (sc_shape m) ix -> gden g ix = sc_meaning V add zero m ix.
 Proof. exact from_scipy_correct_proof. Qed.
 Print Assumptions from_scipy_correct.
+
+(* the caller's scipy matrix is left as it was: _canonical_scipy copies before scipy's in-place
+   sum_duplicates() (site fact s_canonical_scipy_copies_first of Gen/S_scipyconv.v) *)
+Theorem scipy_operand_unchanged :
+  forall (V : Type) (veqb : V -> V -> bool) (add : V -> V -> V) (zero : V) (m : scs V),
+    scipy_operand_after veqb add zero m = m.
+Proof. exact scipy_operand_unchanged_proof. Qed.
+Print Assumptions scipy_operand_unchanged.
 
 Theorem gcxs_scipy_roundtrip :
   forall (V : Type) (veqb : V -> V -> bool) (add : V -> V -> V) (zero : V),
